@@ -13,8 +13,14 @@ KINDS = ['scalar_empty', 'scalar_arg', 'seq', 'map', 'map_full']
 CONTEXTS = ['root', 'seq_item', 'map_value', 'map_key', 'anchored_aliased', 'merge_value', 'merge_alias', 'merge_list', 'in_set', 'set_value', 'in_omap', 'omap_key', 'in_pairs',
             'second_doc', 'depth3', 'alias_key', 'inside_merge_source', 'value_key_value', 'value_key_sibling', 'value_key_alias',
             'merge_overridden', 'merge_overridden_list', 'merge_overridden_deep', 'dup_key_shadowed', 'dup_key_shadowing', 'merge_twice', 'after_handle_doc', 'after_handle_doc_secondary',
-            'omap_key_among', 'omap_same_key_twice', 'set_same_member_twice', 'map_key_among', 'pairs_same_key_twice']
-FULL_CONTEXTS = CONTEXTS + ['in_pytuple', 'in_pydict', 'in_pylist_key']
+            'omap_key_among', 'omap_same_key_twice', 'set_same_member_twice', 'map_key_among', 'pairs_same_key_twice',
+            'value_key_bool', 'value_key_float', 'value_key_timestamp', 'value_key_binary', 'value_key_null', 'value_key_int']
+TYPED_VALUE_KEY = {'value_key_bool': '!!bool', 'value_key_float': '!!float', 'value_key_timestamp': '!!timestamp', 'value_key_binary': '!!binary', 'value_key_null': '!!null',
+                   'value_key_int': '!!int', 'value_key_pybytes': '!!python/bytes', 'value_key_pyint': '!!python/int', 'value_key_pycomplex': '!!python/complex', 'value_key_pystr': '!!python/str',
+                   'value_key_pyfloat': '!!python/float', 'value_key_pybool': '!!python/bool', 'value_key_pylong': '!!python/long'}
+TYPED_SEQ = {'pycomplex_seq': '!!python/complex', 'pyint_seq': '!!python/int', 'pybytes_seq': '!!python/bytes', 'pyfloat_seq': '!!python/float', 'pystr_seq': '!!python/str',
+             'pybool_seq': '!!python/bool', 'pynone_seq': '!!python/none'}
+FULL_CONTEXTS = CONTEXTS + ['in_pytuple', 'in_pydict', 'in_pylist_key'] + [c for c in TYPED_VALUE_KEY if c not in CONTEXTS] + list(TYPED_SEQ)
 SPELLINGS = ['bangbang', 'verbatim', 'handle', 'percent']
 
 
@@ -121,6 +127,14 @@ def render(tag, kind, context, spelling='bangbang'):
     elif context == 'merge_twice':
         body = '<<: {a: ' + node + ' }\n<<: {a: 2}\n'
         info['shadowed'] = True         # constructed, then overwritten: not in the result
+    elif context in TYPED_VALUE_KEY:
+        # the value of a '=' key handed to the converter of a scalar type
+        body = 'k: ' + TYPED_VALUE_KEY[context] + ' {=: ' + node + ' }\n'
+        info['value_key'] = True
+    elif context in TYPED_SEQ:
+        # a scalar type written on a sequence: not a form the type has (rejected), whatever the items are
+        body = '- ' + TYPED_SEQ[context] + ' [ ' + node + ' ]\n- ' + TYPED_SEQ[context] + ' [1, ' + node + ' ]\n'
+        info['typed_seq'] = True
     elif context == 'value_key_value':
         # the "=" (value) key of a mapping that carries a scalar core tag: SafeConstructor.construct_scalar() descends into it
         body = '- !!str {=: ' + node + ' }\n- z\n'
